@@ -19,14 +19,14 @@ static std::vector<double> gen_H(ByteSource& s, int d, std::string* cls) {
   static const char* names[] = {"zero", "direct-diag", "spectrum-distinct", "spectrum-degenerate-pair", "spectrum-all-equal", "integer-levels", "spectrum-with-identity"};
   *cls = names[k];
   if (k == 0) return h;
-  if (k == 1) { if (s.flag()) h[0] = s.num(6); for (int m = 1; m < d; m++) h[d * m + m] = s.num(6); return h; }
+  if (k == 1) { if (s.flag()) h[0] = s.num(40); for (int m = 1; m < d; m++) h[d * m + m] = s.num(6); return h; }  // the identity part may dwarf the splittings: it must not matter
   std::vector<ld> E(d);
   switch (k) {
     case 2: for (int i = 0; i < d; i++) E[i] = (ld)(4 * s.dense()); break;
     case 3: { for (int i = 0; i < d; i++) E[i] = (ld)(4 * s.dense()); int i = (int)s.choose(d), j = (int)s.choose(d); E[j] = E[i]; break; }
     case 4: { ld e = (ld)s.num(6); for (int i = 0; i < d; i++) E[i] = e; break; }
     case 5: for (int i = 0; i < d; i++) E[i] = (ld)s.range(-6, 6); break;
-    default: { ld e0 = (ld)s.num(10); for (int i = 0; i < d; i++) E[i] = e0 + (ld)s.dense(); break; }
+    default: { ld e0 = (ld)s.num(36); for (int i = 0; i < d; i++) E[i] = e0 + (ld)s.dense(); break; }
   }
   Mat M(d); for (int i = 0; i < d; i++) M.a[i][i] = cld(E[i], 0);
   std::vector<ld> c = fromM(M);
